@@ -505,7 +505,8 @@ func Run(tier string) int {
 	}
 	deadline := time.Now().Add(budget)
 	sets, rule, snapCases := EnumFileSets(tier)
-	if only := os.Getenv("VERIF_C08_ONLY"); only != "" {
+	only := os.Getenv("VERIF_C08_ONLY")
+	if only != "" {
 		// debugging aid: restrict to file sets whose conversation set name starts with the value
 		var f []FileSet
 		for _, s := range sets {
@@ -514,6 +515,7 @@ func Run(tier string) int {
 			}
 		}
 		sets = f
+		rule = "RESTRICTED to sets " + only + "*: " + rule
 	}
 	var evals, nontrivial, imports, filesets int64
 	var timedOut int32
@@ -594,7 +596,7 @@ func Run(tier string) int {
 		"idle periods inside a conversation are 4 minutes at most (importer's inactivity timeout: 5); a conversation whose imported part has a longer hole (file in between not yet imported) may show as two streams until the hole is filled",
 		"snapshot dimension only in the thorough tier (an import that creates a snapshot needs >= 100000 packets); snapshot_cases histories",
 	}
-	if len(outcomes) < 5 && timedOut == 0 {
+	if len(outcomes) < 5 && timedOut == 0 && only == "" {
 		mc.Fatal("vacuous: %d outcomes", len(outcomes))
 	}
 	return rep.Finish()
